@@ -119,6 +119,21 @@ let check (op : string) (ty : string) (a : string array) (expected : string) : b
          go sk 0 []
        end in
      Some (expected = (if items = [] then "none" else String.concat ";" items))) else
+  if base_of op = "clone_from" then
+    (let x = p_lut a.(1) in if not (wf_ x) then None else Some (expected = s_lut x)) else
+  if op = "all_functions_rest" then
+    (* C08: the run has 2^(2^n) items and then ends: after k calls of next, max(0, total - k) items are left and the last
+       one is the all-ones table (rank arithmetic, glue) *)
+    (if expected = "panic" then Some false else
+     let n = p_nat a.(0) in
+     let ni = int_of_nat n in
+     if ni > 4 then None else
+     let total = 1 lsl (1 lsl ni) and k = int_of_n (p_n a.(1)) in
+     let left = max 0 (total - k) in
+     Some (match int_of_string a.(2) with
+           | 0 -> expected = "count:" ^ string_of_int left
+           | 1 -> expected = "fold:" ^ string_of_int left
+           | _ -> expected = "last:" ^ (if left = 0 then "none" else s_lut { nv = n; tbl = [n_of_int (total - 1)] }))) else
   if op = "all_functions_after" then
     (* C02 / C08: the run has 2^(2^n) items; whatever the iterator yields after its end is a well-formed table *)
     (if expected = "panic" then Some false else
